@@ -108,11 +108,13 @@ pub struct Config {
     /// Build the stack as nested `Layered` values (`Registry::default().with(a).with(b)…`), the way
     /// applications do, instead of a `Vec` of boxed layers (level hints are combined differently).
     pub nested: bool,
+    /// (operation index, span selector): read the storages after that operation
+    pub probes: Vec<(usize, usize)>,
 }
 
 impl Config {
     pub fn parse(rest: &[String]) -> Self {
-        let mut cfg = Config { layers: vec![Filt::All], global: None, pass: vec![], per_layer: false, nested: false };
+        let mut cfg = Config { layers: vec![Filt::All], global: None, pass: vec![], per_layer: false, nested: false, probes: vec![] };
         for l in rest {
             let mut t = Toks::new(l);
             match t.next() {
@@ -131,6 +133,11 @@ impl Config {
                 Some("gfilter") => cfg.global = t.num(),
                 Some("perlayer") => cfg.per_layer = t.num::<u8>() == Some(1),
                 Some("nested") => cfg.nested = t.num::<u8>() == Some(1),
+                Some("probe") => {
+                    if let (Some(at), Some(n)) = (t.num::<usize>(), t.num::<usize>()) {
+                        cfg.probes.push((at, n));
+                    }
+                }
                 Some("pass") => {
                     if let Some(p) = t.num() {
                         cfg.pass.push(p);
@@ -606,7 +613,25 @@ pub fn run_capture(prog: &Program, cfg: &Config) -> (Vec<SharedStorage>, bool) {
 
 pub fn run_capture_log(prog: &Program, cfg: &Config) -> (Vec<SharedStorage>, bool, Vec<program::FeCall>) {
     let (dispatch, storages) = cfg.build();
-    let res = catch_unwind(AssertUnwindSafe(|| dispatcher::with_default(&dispatch, || program::run(&dispatch, prog))));
+    // `probe <op> <n>` lines: after operation <op> the storages are read while capturing goes on (a
+    // test that inspects the storage half-way): the descendants of one span are walked and counted.
+    // Reading must not change what later reads see.
+    let probe = |i: usize| {
+        for (at, n) in &cfg.probes {
+            if *at == i {
+                for st in &storages {
+                    let lock = st.lock();
+                    let len = lock.all_spans().len();
+                    if len > 0 {
+                        if let Some(s) = lock.all_spans().nth(n % len) {
+                            let _ = (s.descendants().count(), s.descendant_events().count(), s.descendants().size_hint());
+                        }
+                    }
+                }
+            }
+        }
+    };
+    let res = catch_unwind(AssertUnwindSafe(|| dispatcher::with_default(&dispatch, || program::run_probed(&dispatch, prog, probe))));
     match res {
         Ok(log) => (storages, false, log),
         Err(_) => (storages, true, vec![]),
@@ -822,6 +847,12 @@ impl Suite for Capture {
         if rng.chance(1, 3) {
             lines.push("nested 1".into());
         }
+        if rng.chance(1, 3) {
+            // the storage is read while the program is still running
+            for _ in 0..rng.range(1, 4) {
+                lines.push(format!("probe {} {}", rng.below(prog.ops.len().max(1)), rng.below(6)));
+            }
+        }
         if focus == "C16" && rng.chance(1, 3) {
             // only for C16 (no panic, independence): under per-layer filtering the contextual parent is
             // tracing-subscriber's nearest *entered* span enabled for the filter, which is not the
@@ -956,7 +987,7 @@ impl Suite for Capture {
         // ---- C16: each layer captures what it would capture alone
         if cfg.layers.len() > 1 || !cfg.pass.is_empty() {
             for (i, f) in cfg.layers.iter().enumerate() {
-                let solo = Config { layers: vec![f.clone()], global: cfg.global, pass: vec![], per_layer: cfg.per_layer, nested: cfg.nested };
+                let solo = Config { layers: vec![f.clone()], global: cfg.global, pass: vec![], per_layer: cfg.per_layer, nested: cfg.nested, probes: vec![] };
                 let (st, p) = run_capture(&prog, &solo);
                 if p {
                     continue; // reported by the single-layer run of another case
